@@ -21,10 +21,10 @@ let geti kv k d = try int_of_string (List.assoc k kv) with Not_found -> d
 let getl kv k = match get kv k "" with "" -> [] | s -> List.map int_of_string (String.split_on_char ',' s)
 
 let tool_consts = function
-  | "cache" -> (cache_order, cache_poison_first, cache_final_peek)
-  | "fold" -> (fold_order, fold_poison_first, fold_final_peek)
-  | "b64" -> (b64_order, b64_poison_first, b64_final_peek)
-  | _ -> (true, true, false)
+  | "cache" -> (cache_order, cache_poison_first, cache_final_peek, false, false)
+  | "fold" -> (fold_order, fold_poison_first, fold_final_peek, fold_mid_peek, fold_peek_eof_ok)
+  | "b64" -> (b64_order, b64_poison_first, b64_final_peek, false, false)
+  | _ -> (true, true, false, false, false)
 
 let label_text = function
   | LFeed -> "feed" | LSend m -> "send" ^ string_of_int (int_of_nat m) | LFlushStart -> "flush"
@@ -35,7 +35,7 @@ let label_text = function
 (* ------------------------------------------------------------ exploration *)
 let explore kv =
   let tool = get kv "tool" "raw" in
-  let (o, pf, fp) = tool_consts tool in
+  let (o, pf, fp, mid, eofok) = tool_consts tool in
   let b k d = match get kv k "" with "" -> d | "1" -> true | _ -> false in
   let order = if tool = "raw" then b "order" true else o in
   let pfirst = if tool = "raw" then b "pf" true else pf in
@@ -43,7 +43,9 @@ let explore kv =
   let kpol = match get kv "k" "1" with "inf" -> None | s -> Some (nat_of_int (int_of_string s)) in
   let pr = { p_order = order; p_poison_first = pfirst; p_final_peek = fpeek;
              p_cin = nat_of_int (geti kv "cin" 1); p_cout = nat_of_int (geti kv "cout" 1);
-             p_echo = b "echo" false; p_kpol = kpol } in
+             p_echo = b "echo" false; p_kpol = kpol; p_early = b "early" false;
+             p_mid_peek = (if tool = "raw" then b "mid" false else mid);
+             p_peek_eof_ok = (if tool = "raw" then b "eofok" false else eofok) } in
   let il = nat_of_int (geti kv "ilen" 1) and al = nat_of_int (geti kv "alen" 1) in
   let ilen = (fun _ -> il) and alen = (fun _ -> if pr.p_echo then il else al) in
   let recs = List.map nat_of_int (getl kv "recs") in
@@ -89,7 +91,7 @@ exception Reject of string
 
 let replay kv events =
   let tool = get kv "tool" "fold" in
-  let (order, pfirst, fpeek) = tool_consts tool in
+  let (order, pfirst, fpeek, mid, eofok) = tool_consts tool in
   let one = nat_of_int 1 in
   let evs = List.filter (fun e -> e <> "") (List.map String.trim events) in
   let parsed = List.map (fun e -> match split_ws e with
@@ -98,7 +100,8 @@ let replay kv events =
   let recs = List.filter_map (fun (t, name, n) -> if t = "F" && name = "lines" then Some (nat_of_int n) else None) parsed in
   let total = List.fold_left (fun a n -> a + int_of_nat n) 0 recs in
   let pr = { p_order = order; p_poison_first = pfirst; p_final_peek = fpeek;
-             p_cin = nat_of_int (total + 1); p_cout = nat_of_int (total + 1); p_echo = false; p_kpol = Some one } in
+             p_cin = nat_of_int (total + 1); p_cout = nat_of_int (total + 1); p_echo = false; p_kpol = Some one;
+             p_early = true; p_mid_peek = mid; p_peek_eof_ok = eofok } in
   let ilen = (fun _ -> one) and alen = (fun _ -> one) in
   let s = ref (w_init recs) in
   let step what l =
@@ -127,6 +130,12 @@ let replay kv events =
     (match !s.w_fpc with
      | FSendSecond | FSendFirst -> closure (); ignore (try_step LFeed)
      | _ -> ()) in
+  (* the in-loop queue test of foldfilter is not traced when the queue is non-empty: pass it silently *)
+  let pass_mid what =
+    if !s.w_kpc = KMid && !s.w_queue <> [] then step what (LCollect O) in
+  let drive_child_exit () =
+    for _ = 1 to 4 do ignore (try_step LFeed); closure () done;
+    ignore (try_step LChildEof); ignore (try_step LChildEof) in
   let nrec = ref 0 in
   let idx = ref 0 in
   (try
@@ -177,6 +186,7 @@ let replay kv events =
            if !s.w_fpc <> FEofFlush then raise (Reject (what ^ ": final flush out of place"));
            step what LFeed; closure ()
          | "C", "deq" ->
+           pass_mid what;
            (match !s.w_kpc, !s.w_queue with
             | KDeq, Some _ :: _ -> step what (LCollect O)
             | KDeq, [] -> raise (Reject (what ^ ": collector dequeued bookkeeping that the model's feeder has not enqueued yet"))
@@ -195,6 +205,7 @@ let replay kv events =
            if !s.w_kpc <> KLines || int_of_nat !s.w_kneed <> 0 then raise (Reject (what ^ ": emit before all lines of the record were read"));
            step what (LCollect O)
          | "C", "deq-poison" ->
+           pass_mid what;
            (match !s.w_kpc, !s.w_queue with
             | KDeq, None :: _ -> step what (LCollect O)
             | _ -> raise (Reject (what ^ ": poison dequeued but the model's queue head is not the poison")))
@@ -203,11 +214,31 @@ let replay kv events =
            ignore (try_step LFeed); closure (); ignore (try_step LFeed);
            ignore (try_step LChildEof); ignore (try_step LChildEof);
            step what (LCollect O)
-         | "C", "peek-branch" -> raise (Reject (what ^ ": foldfilter took the queue.Empty() branch (assumed unreachable)"))
+         | "C", "peek-branch" ->
+           (* the real queue was empty; the trace line of an enqueue is written just before the Produce, so the
+              model may already see that entry: then the branch is passed as if the test had been false *)
+           if !s.w_kpc <> KMid then raise (Reject (what ^ ": in-loop peek but the model's collector is not after an emit"));
+           step what (LCollect O)
+         | "C", "peek-byte" ->
+           if !s.w_kpc = KMidW then begin
+             closure ();
+             step what (LCollect O);
+             if !s.w_kpc <> KMid2 then raise (Reject (what ^ ": peek returned a byte but the model says end-of-file"));
+             step what (LCollect O);
+             if !s.w_kpc = KErr then raise (Reject (what ^ ": model reaches 'more output than input'"))
+           end
+         | "C", "peek-eof" ->
+           if !s.w_kpc = KMidW then begin
+             drive_child_exit ();
+             step what (LCollect O);
+             if !s.w_kpc = KMid2 then step what (LCollect O);
+             if !s.w_kpc = KErr then raise (Reject (what ^ ": model aborts on the child's end-of-file in the in-loop peek"))
+           end
          | _ -> raise (Reject (what ^ ": unknown event")))
        parsed;
      (* the rest of the run is not traced: feeder closes, child sees EOF and exits *)
      finish_record ();
+     if !s.w_kpc = KMid && !s.w_queue <> [] then ignore (try_step (LCollect O));
      for _ = 1 to 4 do ignore (try_step LFeed); closure () done;
      ignore (try_step LChildEof); ignore (try_step LChildEof);
      ignore (try_step (LCollect O));
